@@ -3,8 +3,9 @@
     executable model Stack/Model.v (thread-local FilterState bitmap + pending interest, Filtered, both Layered
     impls, Option / Vec / Box wrappers, the Registry with the filter map stored per span, Context lookups by
     FilterId, and the macro guard with the per-callsite interest cache), whose vocabulary is in Stack/Spec.v.
-    The model is compared with the real crates on every run (driver/props/c07.py); the one flag it reads from
-    the source (TVGen.Gen_stack, regenerated on every run) does not occur in any statement below.
+    The model is compared with the real crates on every run (driver/props/c07.py).  Of the two flags it reads from
+    the source (TVGen.Gen_stack, regenerated on every run) only [registry_vetoes_full] occurs in a statement: as the
+    premise of [C07_F71_refuted].
 
     Reading guide.  [coll] is a stack over the Registry, [layer] a tree of recording leaves [Rec], global filters
     [Glob], per-layer filters [Filt], [Pair] (and_then), [LOpt], [LVec] of any depth and shape; [coll_recs c] lists
@@ -19,7 +20,7 @@
     chain sees as the current span through its own Context; for context-free filters it does not enter at all,
     [C07_static_filters]). *)
 From Coq Require Import NArith List Bool.
-From TV Require Import Stack.Model Stack.Spec Stack.Register Stack.Build Stack.Main Stack.Harness.
+From TV Require Import Stack.Model Stack.Model2 Stack.Spec Stack.Register Stack.Build Stack.Main Stack.TwoStacks Stack.Harness.
 Import ListNotations.
 Local Open Scope N_scope.
 
@@ -80,6 +81,16 @@ Theorem C07_interest_always_sound : forall c m,
 Proof. exact register_always_sound. Qed.
 Print Assumptions C07_interest_always_sound.
 
+(** ** Two stacks live on two threads (Model2.v: everything per-thread is per-thread; the per-callsite interest cache
+    is shared, and holds [Interest::and] of what every live dispatcher registered): for every interleaving of the two
+    threads' operations, each operation meets the specification of its own thread's stack — neither the other stack's
+    filters nor what the other thread did earlier enter ([run_spec2] = [step_spec] + [sees_only_own] per operation). *)
+Theorem C07_two_stacks : forall ca cb mx pool h,
+  WF ca -> WF cb -> HintSound ca mx pool -> HintSound cb mx pool ->
+  clean2 ca cb mx pool h = true -> run_spec2 ca cb mx pool init2 [] [] h.
+Proof. exact two_stacks. Qed.
+Print Assumptions C07_two_stacks.
+
 (** ** Known finding F3, refuted: on histories that are not clean the property fails.  Witness 1: an enabled!
     probe (layers A: target app, B: targets app+other; event(app), enabled!(other), then event(app) is missed by
     A).  Witness 2: no probe at all; a plain layer vetoes in [event_enabled] an event that A's filter rejected. *)
@@ -119,6 +130,14 @@ Example C07_nonvacuous :
 Proof. exact nonvacuous. Qed.
 
 (** the F3 stack with an event where the probe was: clean, and the leaf is notified *)
+Example C07_two_nonvacuous :
+  clean2 (build f3_stack) (build nv_stack) 5 pool45 two_history = true /\
+  (let outs := run2_obs (build f3_stack) (build nv_stack) 5 pool45 two_history in
+   deliveredb 2 (nth 3 outs []) = true /\ deliveredb 1 (nth 3 outs []) = false /\
+   deliveredb 1 (nth 5 outs []) = true /\ deliveredb 2 (nth 5 outs []) = true /\
+   deliveredb 3 (nth 4 outs []) = true /\ deliveredb 4 (nth 4 outs []) = true).
+Proof. exact two_nonvacuous. Qed.
+
 Example C07_F3_clean_counterpart :
   clean (build f3_stack) 5 pool45 [OEvent 6; OEvent 7] = true /\ ~ misses (build f3_stack) 5 pool45 [OEvent 6; OEvent 7] 6 1.
 Proof. exact F3_clean_counterpart. Qed.
